@@ -18,6 +18,7 @@ import (
 	"sync"
 
 	kafka "github.com/segmentio/kafka-go"
+	"github.com/segmentio/kafka-go/compress"
 	"github.com/segmentio/kafka-go/protocol"
 	"github.com/segmentio/kafka-go/protocol/apiversions"
 	"github.com/segmentio/kafka-go/protocol/metadata"
@@ -59,15 +60,16 @@ type wireCluster struct {
 	stallGate chan struct{}
 	stalled   chan struct{}
 	stallDone chan struct{}
+	prefix    byte   // first letter of the broker host names ("b1", "b2", …; a second cluster uses another letter)
 	prodMax   int16  // > 0: the brokers advertise Produce up to this version only (old brokers: v3 / v4)
 	stallRest string // what happened to the rest of the stalled request: "eof" (the client had given up) / "delivered"
 }
 
-func newWireCluster(f *fakeRT, nbrokers int, nparts map[string]int, moves []leaderMove) *wireCluster {
+func newWireCluster(f *fakeRT, nbrokers int, nparts map[string]int, moves []leaderMove, prefix byte) *wireCluster {
 	fc := fakecluster.New()
 	for i := 1; i <= nbrokers; i++ {
 		b := fc.AddBroker(int32(i))
-		b.Host, b.Port = "b"+strconv.Itoa(i), 9092
+		b.Host, b.Port = string(prefix)+strconv.Itoa(i), 9092
 	}
 	fc.Controller = 1
 	k := 0
@@ -80,14 +82,14 @@ func newWireCluster(f *fakeRT, nbrokers int, nparts map[string]int, moves []lead
 		}
 		fc.Topics[t] = tp
 	}
-	return &wireCluster{fc: fc, f: f, moves: moves, stallGate: make(chan struct{}), stalled: make(chan struct{}), stallDone: make(chan struct{})}
+	return &wireCluster{fc: fc, f: f, moves: moves, prefix: prefix, stallGate: make(chan struct{}), stalled: make(chan struct{}), stallDone: make(chan struct{})}
 }
 
-func (w *wireCluster) bootAddr() net.Addr { return kafka.TCP("b1:9092") }
+func (w *wireCluster) bootAddr() net.Addr { return kafka.TCP(string(w.prefix) + "1:9092") }
 
 func (w *wireCluster) Dial(ctx context.Context, network, addr string) (net.Conn, error) {
 	host, _, err := net.SplitHostPort(addr)
-	if err != nil || len(host) < 2 || host[0] != 'b' {
+	if err != nil || len(host) < 2 || host[0] != w.prefix {
 		return nil, fmt.Errorf("wire cluster: nothing listens on %s", addr)
 	}
 	id, err := strconv.Atoi(host[1:])
@@ -170,6 +172,20 @@ func (w *wireCluster) serve(broker int32, conn *wireConn) {
 		}
 		if _, err := io.ReadFull(conn, body); err != nil {
 			return
+		}
+		if binary.BigEndian.Uint16(hdr[4:6]) == 0 && binary.BigEndian.Uint16(hdr[6:8]) <= 2 {
+			// Produce v0-v2 (message sets): the request is parsed HERE, byte by byte from the protocol description, the
+			// way an old broker does — a compressed wrapper message is decompressed and the inner message set is read up
+			// to the last complete message (a truncated tail is ignored); not with the library's own decoder
+			ver := int16(binary.BigEndian.Uint16(hdr[6:8]))
+			corr, req, ok := parseOldProduce(body)
+			if !ok {
+				return
+			}
+			if !w.serveOne(broker, conn, ver, corr, req) {
+				return
+			}
+			continue
 		}
 		ver, corr, _, msg, err := protocol.ReadRequest(bytes.NewReader(append(hdr[:], body...)))
 		if err != nil {
@@ -377,4 +393,123 @@ func encodeProduceResponse(ver int16, corr int32, r *produce.Response) []byte {
 	}
 	binary.BigEndian.PutUint32(b[:4], uint32(len(b)-4))
 	return b
+}
+
+// parseOldProduce reads a Produce v0-v2 request body (everything after size, api key and version): correlation id,
+// client id, acks, timeout, [topics] (name, [partitions] (index, message set bytes)).
+func parseOldProduce(b []byte) (corr int32, req *produce.Request, ok bool) {
+	p := 0
+	need := func(n int) bool { return n >= 0 && p+n <= len(b) }
+	i16 := func() int { v := int(int16(binary.BigEndian.Uint16(b[p:]))); p += 2; return v }
+	i32 := func() int { v := int(int32(binary.BigEndian.Uint32(b[p:]))); p += 4; return v }
+	if !need(6) {
+		return
+	}
+	corr = int32(i32())
+	if n := i16(); n > 0 {
+		if !need(n) {
+			return
+		}
+		p += n
+	}
+	if !need(10) {
+		return
+	}
+	req = &produce.Request{}
+	req.Acks = int16(i16())
+	req.Timeout = int32(i32())
+	nt := i32()
+	for t := 0; t < nt; t++ {
+		if !need(2) {
+			return
+		}
+		n := i16()
+		if !need(n + 4) {
+			return
+		}
+		rt := produce.RequestTopic{Topic: string(b[p : p+n])}
+		p += n
+		np := i32()
+		for q := 0; q < np; q++ {
+			if !need(8) {
+				return
+			}
+			part := i32()
+			sz := i32()
+			if !need(sz) {
+				return
+			}
+			recs, attrs := parseMessageSet(b[p:p+sz], 0)
+			p += sz
+			rt.Partitions = append(rt.Partitions, produce.RequestPartition{Partition: int32(part),
+				RecordSet: protocol.RecordSet{Version: 1, Attributes: protocol.Attributes(attrs), Records: protocol.NewRecordReader(recs...)}})
+		}
+		req.Topics = append(req.Topics, rt)
+	}
+	return corr, req, true
+}
+
+// parseMessageSet reads a message set of format 0 / 1: [offset int64, size int32, crc int32, magic int8, attributes
+// int8, (magic 1: timestamp int64), key bytes, value bytes]*; a message whose attributes name a codec wraps a compressed
+// inner message set.  Reading stops at the first incomplete message.  Returns the records and the codec bits seen.
+func parseMessageSet(b []byte, depth int) (recs []protocol.Record, attrs int8) {
+	p := 0
+	for p+12 <= len(b) {
+		size := int(int32(binary.BigEndian.Uint32(b[p+8:])))
+		if size < 6 || p+12+size > len(b) {
+			break
+		}
+		m := b[p+12 : p+12+size]
+		p += 12 + size
+		magic, at := int8(m[4]), int8(m[5])
+		q := 6
+		if magic >= 1 {
+			q += 8
+		}
+		field := func() ([]byte, bool) {
+			if q+4 > len(m) {
+				return nil, false
+			}
+			n := int(int32(binary.BigEndian.Uint32(m[q:])))
+			q += 4
+			if n < 0 {
+				return nil, true
+			}
+			if q+n > len(m) {
+				return nil, false
+			}
+			v := m[q : q+n : q+n]
+			q += n
+			if v == nil {
+				v = []byte{}
+			}
+			return v, true
+		}
+		key, ok1 := field()
+		val, ok2 := field()
+		if !ok1 || !ok2 {
+			break
+		}
+		if codec := at & 7; codec != 0 && depth == 0 {
+			attrs |= codec
+			rd := compress.Compression(codec).Codec().NewReader(bytes.NewReader(val))
+			inner, _ := io.ReadAll(rd) // whatever decompresses; a cut stream gives what was readable
+			rd.Close()
+			r2, _ := parseMessageSet(inner, 1)
+			recs = append(recs, r2...)
+			continue
+		}
+		rec := protocol.Record{}
+		if key != nil {
+			rec.Key = protocol.NewBytes(append([]byte{}, key...))
+			if len(key) == 0 {
+				rec.Key = protocol.NewBytes([]byte{})
+			}
+		}
+		if val != nil {
+			rec.Value = protocol.NewBytes(append([]byte{}, val...))
+		}
+		recs = append(recs, rec)
+	}
+	return
 }
